@@ -1,6 +1,6 @@
 (* C15 - clusters are the connected components / SciPy clusters of the stated distances. *)
 From Coq Require Import List NArith Bool Arith Lia.
-From PV Require Import lib.Edits lib.LevDP lib.Str model.Symdel model.Cluster proofs.SymdelP proofs.ClusterP.
+From PV Require Import lib.Edits lib.LevDP lib.Str lib.Condensed model.Symdel model.Cluster proofs.SymdelP proofs.ClusterP proofs.CondensedP.
 Import ListNotations.
 
 (* the executable labelling puts two nodes in one cluster exactly when a path of edges connects them *)
@@ -48,6 +48,56 @@ Proof.
   apply C15_threshold_graph in H. simpl. tauto.
 Qed.
 Print Assumptions C15_threshold_graph_edges_ok.
+
+(* single linkage (naive agglomerative model: repeatedly merge the two clusters at minimum inter-cluster minimum
+   distance, recording (members, height)) cut with fcluster(criterion='distance', t) -- join everything merged at
+   height <= t -- puts two points in one flat cluster exactly when a path of pairs at distance <= t connects them.
+   Holds for every distance function D on 0..n-1; symmetry of D is not needed because the model looks at both
+   orders of every pair of clusters (for a symmetric D this is the usual algorithm). *)
+Theorem C15_single_linkage_cut : forall n D t u v, u < n -> v < n ->
+  (nth u (sl_cut n D t) 0 = nth v (sl_cut n D t) 0 <-> connected (threshold_graph n D t) u v).
+Proof. exact single_linkage_cut. Qed.
+Print Assumptions C15_single_linkage_cut.
+
+(* the threshold graph has an edge for every pair of distinct points with D u v <= t *)
+Theorem C15_threshold_graph_edges : forall n D t i j,
+  In (i, j) (threshold_graph n D t) <-> i < n /\ j < n /\ i <> j /\ D i j <= t.
+Proof. exact threshold_graph_in. Qed.
+Print Assumptions C15_threshold_graph_edges.
+
+(* merge heights never decrease, so "merged at height <= t" is a prefix of the dendrogram (what fcluster's
+   max-height-in-subtree criterion selects) *)
+Theorem C15_single_linkage_monotone : forall n D, Sorted.StronglySorted le (map snd (single_linkage n D)).
+Proof. exact single_linkage_heights_sorted. Qed.
+Print Assumptions C15_single_linkage_monotone.
+
+(* combined with C15_threshold_graph: single linkage at t on the Levenshtein distance matrix = connected
+   components of the max_edits = t neighbour graph *)
+Theorem C15_single_linkage_neighbour_graph : forall t seqs u v, u < length seqs -> v < length seqs ->
+  (nth u (sl_cut (length seqs) (mat_dist (lev_matrix seqs)) t) 0 = nth v (sl_cut (length seqs) (mat_dist (lev_matrix seqs)) t) 0
+   <-> nth u (components (length seqs) (nn_edges t seqs)) 0 = nth v (components (length seqs) (nn_edges t seqs)) 0).
+Proof.
+  intros t seqs u v Hu Hv.
+  rewrite (single_linkage_cut _ _ t u v Hu Hv).
+  rewrite (components_spec _ _ u v (C15_threshold_graph_edges_ok t seqs) Hu Hv).
+  apply connected_same_edges. intros a b.
+  rewrite threshold_graph_in, C15_threshold_graph. unfold mat_dist, lev_matrix, sget.
+  split; intros (Ha & Hb & Hne & Hd); repeat split; auto.
+  - rewrite (cdist_loop_nth_default slev_x [] seqs seqs a b [] 0 Ha Hb), slev_x_spec in Hd. exact Hd.
+  - rewrite (cdist_loop_nth_default slev_x [] seqs seqs a b [] 0 Ha Hb), slev_x_spec. exact Hd.
+Qed.
+Print Assumptions C15_single_linkage_neighbour_graph.
+
+Example C15_single_linkage_ex :
+  let seqs := [[1;2;3];[1;2;4];[1;2];[7;7;7;7];[1;2;3]]%N in
+  let D := mat_dist (lev_matrix seqs) in
+  single_linkage 5 D = [([0;4], 0); ([0;4;1], 1); ([0;4;1;2], 1); ([0;4;1;2;3], 4)] /\
+  sl_cut 5 D 0 = [0;1;2;3;0] /\ sl_cut 5 D 1 = [0;0;0;3;0] /\ sl_cut 5 D 3 = [0;0;0;3;0] /\ sl_cut 5 D 4 = [0;0;0;0;0] /\
+  components 5 (nn_edges 1 seqs) = [0;0;0;3;0] /\ connected (threshold_graph 5 D 1) 2 4.
+Proof.
+  repeat split; try (vm_compute; reflexivity).
+  apply (C15_single_linkage_cut 5 _ 1 2 4); [lia|lia|vm_compute; reflexivity].
+Qed.
 
 Example C15_ex : components 6 [(0,1);(1,0);(3,4);(4,3);(4,5);(5,4)] = [0;0;2;3;3;3] /\
   graph_cc 6 [(0,1);(1,0);(3,4);(4,3);(4,5);(5,4)] = [(0,0);(1,0);(3,3);(4,3);(5,3)] /\
